@@ -543,6 +543,16 @@ pub fn run(ctx: &Ctx) {
         v
     }, check_scalar_mul);
 
+    ctx.exhaustive("scalar_mul_zero_limbs", "scalar_mul and g_mul for scalars with an all-zero 64-bit limb below a non-zero limb (limbs from {0, 1, 2^63, 2^64-1, random}) and zero runs across limb boundaries, on an affine and a Jacobian point", || {
+        let mut v = Vec::new();
+        for k in gen::zero_limb_scalars() {
+            for (pk, lam) in [(7u32, 1u32), (12345, 3)] {
+                v.push(SM { p: PRep { k: gen::hex32(&BigUint::from(pk)), lambda: gen::hex32(&BigUint::from(lam)) }, scalar: gen::hex32(&k) });
+            }
+        }
+        v
+    }, |c| { check_scalar_mul(c)?; check_g_mul(&GM { scalar: c.scalar.clone() }) });
+
     ctx.exhaustive("g_mul_single_bytes", "every scalar b*256^i, b = 1..=255, i = 0..=31 (each table entry alone)", || {
         let mut v = Vec::new();
         for i in 0..32u32 {
